@@ -100,11 +100,17 @@ class SList:
 class SMap:
     """dict with symbolic key set: has: Array K Bool, val: Array K V."""
 
-    def __init__(self, has, val, kty, vty):
+    def __init__(self, has, val, kty, vty, ident=None):
         self.has, self.val, self.kty, self.vty = has, val, kty, vty
+        self.ident = ident  # (has, val, id term) while unmodified: lets UFs take the map by name
 
     def copy(self):
-        return SMap(self.has, self.val, self.kty, self.vty)
+        return SMap(self.has, self.val, self.kty, self.vty, self.ident)
+
+    def ident_term(self):
+        if self.ident is not None and self.ident[0] is self.has and self.ident[1] is self.val:
+            return self.ident[2]
+        return None
 
 
 class Rec:
@@ -322,7 +328,7 @@ class TMap(Ty):
     def fresh(self, ctx, name):
         has = ctx.fresh(name + ".has", z3.ArraySort(self.kty.sort(), z3.BoolSort()))
         val = ctx.fresh(name + ".val", z3.ArraySort(self.kty.sort(), self.vty.sort()))
-        return SMap(has, val, self.kty, self.vty)
+        return SMap(has, val, self.kty, self.vty, (has, val, ctx.fresh(name + ".id", usort("MapId"))))
 
 
 class TConst(Ty):
@@ -345,6 +351,87 @@ class TRec(Ty):
             {k: t.fresh(ctx, f"{name}.{k}") for k, t in self.fields.items()},
             cls=self.cls,
         )
+
+
+_LISTS: dict[str, Any] = {}
+
+
+def list_sort(ety):
+    """Datatype (len, arr) used when a whole list must be a single SMT value (map values, UF arguments)."""
+    key = str(ety.sort())
+    if key not in _LISTS:
+        d = z3.Datatype("ListS_" + key.replace(" ", "_"))
+        d.declare("mk", ("len", z3.IntSort()), ("arr", z3.ArraySort(z3.IntSort(), ety.sort())))
+        _LISTS[key] = d.create()
+    return _LISTS[key]
+
+
+def list_term(ctx, v, ety=None):
+    """SMT value of a list (python list or SList)."""
+    if isinstance(v, SList):
+        ety = v.ety
+        return list_sort(ety).mk(zint(v.length), v.arr)
+    if isinstance(v, (list, tuple)):
+        if ety is None:
+            ety = infer_ety(v)
+        arr = z3.K(z3.IntSort(), _default(ety))
+        for i, x in enumerate(v):
+            arr = z3.Store(arr, i, ety.unwrap(ctx, x))
+        return list_sort(ety).mk(z3.IntVal(len(v)), arr)
+    raise Unsupported(f"not a list: {type(v).__name__}")
+
+
+def infer_ety(items):
+    if all(is_strlike(mk(x)) for x in items):
+        return TStr()
+    if all(isinstance(x, Rec) and x.cls_name == "Path" for x in items) and items:
+        return TPath()
+    if all(is_intlike(mk(x)) for x in items):
+        return TInt()
+    raise Unsupported("cannot infer list element type")
+
+
+class TListVal(Ty):
+    """A list stored as one SMT value (for map values / UF results): wraps to an SList view."""
+
+    def __init__(self, ety):
+        self.ety = ety
+
+    def sort(self):
+        return list_sort(self.ety)
+
+    def fresh(self, ctx, name):
+        t = ctx.fresh(name, self.sort())
+        ctx.assume(self.sort().len(t) >= 0)
+        return self.wrap(t)
+
+    def wrap(self, term):
+        S = self.sort()
+        return SList(sint(z3.simplify(S.len(term))), z3.simplify(S.arr(term)), self.ety)
+
+    def facts(self, term):
+        return [self.sort().len(term) >= 0]
+
+    def unwrap(self, ctx, v):
+        return list_term(ctx, v, self.ety)
+
+
+class TPath(Ty):
+    """pathlib.Path identified with its string (already-normalised POSIX path)."""
+
+    def sort(self):
+        return z3.StringSort()
+
+    def fresh(self, ctx, name):
+        return Rec("Path", {"s": SV(ctx.fresh(name, z3.StringSort()), "str")})
+
+    def wrap(self, term):
+        return Rec("Path", {"s": sstr(term)})
+
+    def unwrap(self, ctx, v):
+        if isinstance(v, Rec) and v.cls_name == "Path":
+            return zstr(v.fields["s"])
+        raise Unsupported(f"not a Path: {v!r}")
 
 
 class TOpaque(Ty):
@@ -1005,17 +1092,22 @@ def subscript(ctx: Ctx, v, idx):
         return sstr(z3.SubString(v.t, zint(i), 1))
     if isinstance(v, SList):
         i = _norm_index(ctx, idx, v.length)
-        return mk_elem(v.ety, z3.Select(v.arr, zint(i)))
+        return mk_elem(v.ety, z3.Select(v.arr, zint(i)), ctx)
     if isinstance(v, SMap):
         k = v.kty.unwrap(ctx, idx)
         if not ctx.branch(z3.Select(v.has, k), "key in map"):
             raise PyRaise("KeyError", "symbolic key not in map")
-        return mk_elem(v.vty, z3.Select(v.val, k))
+        return mk_elem(v.vty, z3.Select(v.val, k), ctx)
     raise Unsupported(f"subscript on {type(v).__name__}")
 
 
-def mk_elem(ety, term):
-    return mk(ety.wrap(z3.simplify(term))) if isinstance(ety.wrap(term), SV) else ety.wrap(z3.simplify(term))
+def mk_elem(ety, term, ctx=None):
+    term = z3.simplify(term)
+    if ctx is not None and hasattr(ety, "facts"):
+        for f in ety.facts(term):
+            ctx.assume(f)
+    w = ety.wrap(term)
+    return mk(w) if isinstance(w, SV) else w
 
 
 def _as_term(x):
